@@ -26,6 +26,8 @@ POOL = [
     {"k": "ref", "m": "vw0", "n": "VwP"}, {"k": "ref", "m": "vw0", "n": "VwE"}, {"k": "lit", "v": [1, "a", True]},
     {"k": "bool"}, {"k": "ref", "m": "vw0", "n": "VwQ"}, {"k": "tuple", "a": [{"k": "int"}, {"k": "str"}]}, {"k": "td"}, {"k": "frac"},
     {"k": "ref", "m": "vw0", "n": "VwMaybeInt"}, {"k": "ref", "m": "vw0", "n": "VwMaybeFloat"}, {"k": "lit", "v": [1, 2, None]},
+    # a member that tells bytes from the equal text without being a bytes type (protocol verbs, magic numbers)
+    {"k": "lit", "v": [{"$b": b"GET".hex()}, {"$b": b"PUT".hex()}]}, {"k": "lit", "v": [{"$b": b"1".hex()}, "a"]},
 ]
 NONE = {"k": "none"}
 
@@ -45,8 +47,8 @@ class C08(PropBase):
     THOROUGH_BUDGET_S = 720
     FAULT_KINDS = FAULTS
     RULE = (
-        "A case is one unmarshal or marshal through a union of 2-4 members drawn from a 20-type pool (int, str, float, bool, Decimal, "
-        "Fraction, date, datetime, timedelta, UUID, list[int], dict[str,int], tuple[int,str], two dataclasses, an Enum, a Literal, and three members that are optional themselves: an alias of int | None, a NewType over Optional[float], Literal[1, 2, None]) in a "
+        "A case is one unmarshal or marshal through a union of 2-4 members drawn from a 22-type pool (int, str, float, bool, Decimal, "
+        "Fraction, date, datetime, timedelta, UUID, list[int], dict[str,int], tuple[int,str], two dataclasses, an Enum, two Literals with bytes members, a Literal, and three members that are optional themselves: an alias of int | None, a NewType over Optional[float], Literal[1, 2, None]) in a "
         "seeded member order and spelling (typing.Union / Optional / X|Y), None at a seeded position, on a member wire form or a junk "
         "input. Expected = what the first member routine in declared order that accepts the input returns, each obtained "
         "independently; None for None when None is a member; ValueError iff every member rejects. Non-trivial: another order of the "
@@ -104,6 +106,8 @@ class C08(PropBase):
                 r = rng.random()
                 if r < 0.45:
                     x = copy.deepcopy(w)
+                    if isinstance(x, dict) and "$b" in x and rng.random() < 0.4:
+                        x = {rng.choice(["$ba", "$mv"]): x["$b"]}  # the same octets in another binary carrier
                 elif r < 0.6:
                     txt = hist.json_text(w)
                     x = hist.carry(txt, rng.choice(["str", "bytes"])) if txt is not None else copy.deepcopy(w)
